@@ -18,9 +18,15 @@ fn all_checks() -> Vec<Box<dyn DynCheck>> {
         Box::new(Erased(checks::c01::C01)),
         Box::new(Erased(checks::c02::C02)),
         Box::new(Erased(checks::c03::C03)),
+        Box::new(Erased(checks::c04::C04)),
+        Box::new(Erased(checks::c04::C14)),
+        Box::new(Erased(checks::c04::C15)),
+        Box::new(Erased(checks::c05::C05)),
         Box::new(Erased(checks::c02::C06)),
+        Box::new(Erased(checks::c05::C20)),
         Box::new(Erased(checks::c07::C07)),
         Box::new(Erased(checks::c08::C08)),
+        Box::new(Erased(checks::c09::C09)),
         Box::new(Erased(checks::c10::C10)),
         Box::new(Erased(checks::c11::C11)),
         Box::new(Erased(checks::c11::C12)),
@@ -116,6 +122,7 @@ fn real_main(args: &[String]) -> i32 {
             println!("SUMMARY {}", serde_json::to_string(&s).unwrap_or_default());
             0
         }
+        Some("smoke") => common::smoke(args.get(2).map(String::as_str).unwrap_or("local")),
         Some("replay") => {
             let Some(f) = args.get(2) else { return usage() };
             let quiet = args.iter().any(|a| a == "--quiet");
